@@ -39,7 +39,7 @@ def extra(res, facts, entries, protos):
             ia = T("field", "implicit_assertion", (T("param", pr.params.get("self")),))
             paths = _paths_to(rp, ia)
             # every occurrence must sit under Tag::from(..) or a signing call, i.e. inside a fixed-length authenticator
-            ok_text = bool(paths) and all(any(re.search(r"tag::Tag<.*>>::from|Signer.*::sign|try_sign_digest|sign_digest|RsaKeyPair::sign|SigningKey.*::sign", n) for n in p) for p in paths)
+            ok_text = bool(paths) and all(any(re.search(r"tag::Tag<.*>>::(from|try_from|new|try_new)|Signer.*::sign|try_sign_digest|sign_digest|RsaKeyPair::sign|SigningKey.*::sign", n) for n in p) for p in paths)
             detail = "; ".join(" > ".join(M.short(n)[:40] for n in p[-4:]) for p in paths[:3])
         res.oblige(ok_single and ok_text)
         if ok_single and ok_text:
